@@ -61,6 +61,7 @@ def _encoding_and_enumeration(rep, ex):
     _run(rep, enum.block, ex)
     _run(rep, enum.minimal, ex)
     _run(rep, enum.loop, ex)
+    _run(rep, enum.shared_defaults, ex)
 
 
 def C02(rep, prog, tier):
@@ -326,6 +327,17 @@ def C12(rep, prog, tier):
         _run(rep, mcsops.object_identity, ex)
     finally:
         rep.only = None
+    # equivalent formulas have different clause counts, equal bases have different keys: the family of correction sets must be
+    # the inclusion-minimal ones whatever order and cost the solver reports them in, and nothing may stick to a key from one
+    # base to the next (the shared default of `ignore`)
+    rep.only = {"MCS.minimal", "MCS.loop", "PART.partition", "PART.context"}
+    try:
+        _run(rep, enum.minimal, ex)
+        _run(rep, enum.shared_defaults, ex)
+        _run(rep, part.evaluated, ex, "inference.consistency_sat.consistency_indices", "key")
+        _run(rep, part.evaluated, ex, "inference.consistency_sat.consistency", "cond")
+    finally:
+        rep.only = None
 
 
 def _operator_inference_paths(rep, ex, table):
@@ -527,6 +539,10 @@ def C17(rep, prog, tier):
     _run(rep, cinf.encoding_relation, ex)
     _run(rep, cinf.key_discipline, ex)
     _run(rep, cinf.query_names, ex)
+    # "every query with a satisfiable antecedent that c-inference answers True is accepted by it": the query side of c-inference
+    # (its constraint, its edge cases, the polarity of its answer) is part of this property as well
+    _run(rep, cinf.query_encoding, ex)
+    _run(rep, cinf.answer, ex)
     _run(rep, cinf.minima_encoding, ex)
     _run(rep, cinf.summation, ex)
     _run(rep, preocf.world_literals, ex)
